@@ -429,7 +429,9 @@ func checkListHelpers(c *Ctx) {
 				}
 			case errKnown && errNil && typeKnown && !typeOK:
 				sawType = true
-				if !lst.IsNil() || !termContains(er, func(x *Term) bool { return x.K == "load" && strings.Contains(x.Key(), "errInvalidType") || x.K == "global" && strings.Contains(x.S, "errInvalidType") }) {
+				if !lst.IsNil() || !termContains(er, func(x *Term) bool {
+					return x.K == "load" && strings.Contains(x.Key(), "errInvalidType") || x.K == "global" && strings.Contains(x.S, "errInvalidType")
+				}) {
 					bad = "a non-list object does not yield errInvalidType: " + er.Key()
 				}
 			case errKnown && errNil && typeKnown && typeOK:
